@@ -514,11 +514,23 @@ fn e2e_alloc_op(mode: char, seed: u64, r: u64, t: u64, o: u64) -> Option<u64> {
     }
 }
 
-/// `<sample_count> <sample_size> <t1,t2,..> <counter 0|1>[<alloc mode>] <seed>`: runs the real benchmark binary
+/// Same as `items` in src/e2e.rs.
+fn e2e_items(cmode: char, seed: u64, r: u64, t: u64, o: u64) -> u64 {
+    let class = e2e_mix(seed, r, t, o) % 7;
+    let noise = e2e_mix(seed ^ 0x5555, r, t, o);
+    match cmode {
+        '2' => 10 * (7 - class) + noise % 5,
+        '3' => 10 * (1 + class) + noise % 5,
+        _ => 1 + noise % 50,
+    }
+}
+
+/// `<sample_count> <sample_size> <t1,t2,..> <counter 0|1|2|3>[<alloc mode>] <seed>`: runs the real benchmark binary
 /// `hx-stats-e2e` through `Divan::main` (one `BenchContext` per thread count) and prints, per
 /// thread count, the samples that run recorded (known from the configuration) and the row the
 /// table shows: `R <T> IN <s> <durations> <alloc infos> ROW fastest|slowest|median|mean|samples|iters
-/// BLOCKS <labels of the allocation blocks printed under the row> ;; ..`.
+/// BLOCKS <labels of the allocation blocks printed under the row> TP <throughput rows, cells joined by |> ;; ..`
+/// (the inputs in the `stats` case format: the per-sample item counts in the counters field).
 fn e2e(line: &str) -> String {
     let t = hxlib::toks(line);
     assert!(t.len() == 5, "e2e: 5 tokens");
@@ -530,6 +542,7 @@ fn e2e(line: &str) -> String {
     threads.dedup();
     let seed: u64 = t[4].parse().unwrap();
     let amode: char = t[3].chars().nth(1).unwrap_or('0');
+    let cmode: char = t[3].chars().next().unwrap();
     let exe = std::env::current_exe().expect("exe").with_file_name("hx-stats-e2e");
     let out = std::process::Command::new(exe)
         .args(["--bench", "--sample-count", t[0], "--sample-size", t[1], "--threads", t[2]])
@@ -544,7 +557,7 @@ fn e2e(line: &str) -> String {
     }
     let stdout = String::from_utf8_lossy(&out.stdout);
     // rows: label (`job` or `t=N`), the six cells, and the labels of the allocation blocks printed below the row
-    let mut rows: Vec<(String, Vec<String>, Vec<&str>)> = Vec::new();
+    let mut rows: Vec<(String, Vec<String>, Vec<&str>, Vec<Vec<String>>)> = Vec::new();
     for l in stdout.lines() {
         if !l.contains('│') {
             continue;
@@ -574,22 +587,36 @@ fn e2e(line: &str) -> String {
             continue;
         }
         if !(first[0] == "job" || first[0].starts_with("t=")) {
-            continue; // value lines of a block, the header
+            // a throughput row (`629 Mitem/s │ ..`) belongs to the run row above it; other lines are the
+            // value lines of an allocation block or the header
+            if cells[0].contains("/s") || cells[0].contains("Hz") {
+                let mut v = vec![first.join("_")];
+                v.extend(cells[1..4.min(cells.len())].iter().map(|c| c.trim().replace(' ', "_")));
+                if let Some(last) = rows.last_mut() {
+                    last.3.push(v);
+                }
+            }
+            continue;
         }
         let label = first[0].to_string();
         let fastest = first[1..].join("_");
         let mut v = vec![fastest];
         v.extend(cells[1..].iter().map(|c| c.trim().replace(' ', "_")));
-        rows.push((label, v, Vec::new()));
+        rows.push((label, v, Vec::new(), Vec::new()));
     }
     let mut parts = Vec::new();
     for (r, &tc) in threads.iter().enumerate() {
         let rounds = if n == 0 { 0 } else { (n + tc - 1) / tc };
         let mut durs = Vec::new();
         let mut allocs = Vec::new();
+        let mut counts = Vec::new();
         for rho in 0..rounds {
             for tau in 0..tc {
                 let mut d = 1u64;
+                if cmode != '0' {
+                    let total: u64 = (rho * s..(rho + 1) * s).map(|o| e2e_items(cmode, seed, r as u64, tau, o)).sum();
+                    counts.push((total / s.max(1)).to_string());
+                }
                 // rows grow, shrink, alloc, dealloc x (count, size); peaks of the sample
                 let mut rw = [0u64; 8];
                 let (mut max_count, mut max_size) = (0u64, 0u64);
@@ -633,10 +660,15 @@ fn e2e(line: &str) -> String {
             }
         }
         let label = if threads.len() > 1 { format!("t={tc}") } else { "job".to_string() };
-        let found = rows.iter().find(|(l, c, _)| *l == label && c.len() == 6 && !c[0].is_empty());
-        let row = found.map(|(_, c, _)| c.join("|")).unwrap_or_else(|| "missing".to_string());
+        let found = rows.iter().find(|(l, c, _, _)| *l == label && c.len() == 6 && !c[0].is_empty());
+        let row = found.map(|(_, c, _, _)| c.join("|")).unwrap_or_else(|| "missing".to_string());
+        let tp = found
+            .map(|(_, _, _, t)| {
+                if t.is_empty() { "-".to_string() } else { t.iter().map(|r| r.join("|")).collect::<Vec<_>>().join("+") }
+            })
+            .unwrap_or_else(|| "missing".to_string());
         let blocks = found
-            .map(|(_, _, b)| {
+            .map(|(_, _, b, _)| {
                 let order = ["max_alloc", "grow", "shrink", "alloc", "dealloc", "other"];
                 let mut b: Vec<&str> = b.clone();
                 b.sort_by_key(|x| order.iter().position(|y| y == x));
@@ -644,13 +676,16 @@ fn e2e(line: &str) -> String {
             })
             .unwrap_or_else(|| "missing".to_string());
         parts.push(format!(
-            "R {} IN {} {} {} ROW {} BLOCKS {}",
+            "R {} IN {} {} {} |||{} {} ROW {} BLOCKS {} TP {}",
             tc,
             s,
             if durs.is_empty() { "-".to_string() } else { durs.join(",") },
             if allocs.is_empty() { "-".to_string() } else { allocs.join(";") },
+            counts.join(","),
+            if cmode != '0' { "0001" } else { "0000" },
             row,
-            blocks
+            blocks,
+            tp
         ));
     }
     parts.join(" ;; ")
